@@ -910,11 +910,16 @@ pub fn c09_quotient(inp: &PV) -> PV {
     // quotienting again changes nothing
     let r2 = f.quotient();
     let after2 = lax_read(&f);
+    // the deprecated alias must behave exactly like quotient()
+    let mut fa = lax_build(inp.at(0).lax());
+    #[allow(deprecated)]
+    let ra = fa.quotient_witness();
+    let alias = PV::List(vec![tag(&ra), pv_lax(&fa)]);
     // the plain-hypergraph entry point
     let mut h = lax_build(inp.at(0).lax()).hypergraph;
     let r3 = h.quotient();
     let hr = lax_read(&LOH { sources: vec![], targets: vec![], hypergraph: h });
-    PV::List(vec![t1, PV::Lax(after1), tag(&r2), PV::Lax(after2), tag(&r3), PV::Lax(hr)])
+    PV::List(vec![t1, PV::Lax(after1), tag(&r2), PV::Lax(after2), tag(&r3), PV::Lax(hr), alias])
 }
 
 // ------------------------------------------------------------------ lax category structure (C02 / C04 / C10)
@@ -975,7 +980,12 @@ pub fn lax_compose(inp: &PV) -> PV {
 /// to_strict of a lax diagram (panics on a label conflict)
 pub fn lax_to_strict(inp: &PV) -> PV {
     let f = lax_build(inp.at(0).lax());
-    pv_voh(&f.to_strict())
+    let r = f.clone().to_strict();
+    // the deprecated name is the same conversion
+    #[allow(deprecated)]
+    let old = f.to_open_hypergraph();
+    assert!(rd_voh(&r) == rd_voh(&old), "to_open_hypergraph differs from to_strict");
+    pv_voh(&r)
 }
 pub fn lax_roundtrip(inp: &PV) -> PV {
     let r = inp.at(0).lax();
@@ -1226,7 +1236,10 @@ pub fn c12_lax_map(inp: &PV) -> PV {
     let f = lax_build(inp.at(0).lax());
     let fam = tm::as_const(inp.at(1).t()).expect("family");
     let via_strict = if fam == 0 { LF::map_arrow(&lax::functor::dyn_functor::Identity, &f) } else { LF::map_arrow(&LaxFam(fam), &f) };
-    PV::List(vec![pv_lax(&via_strict)])
+    // the deprecated free function is the same path
+    #[allow(deprecated)]
+    let old = lax::functor::define_map_arrow(&LaxFam(if fam == 0 { 0 } else { fam }), &f);
+    PV::List(vec![pv_lax(&via_strict), pv_lax(&old)])
 }
 pub fn c13_native(inp: &PV) -> PV {
     let f = lax_build(inp.at(0).lax());
@@ -1550,4 +1563,60 @@ pub fn c08_vec_iter(inp: &PV) -> PV {
     let ops = Operations::<VK, L, L>::new(x, a, b).expect("gen: operation batch");
     let triples = PV::List(ops.iter().map(|(l, s, t)| PV::List(vec![PV::T(K::rd_l(l)), ls(s), ls(t)])).collect());
     PV::List(vec![slices, triples])
+}
+
+
+// ------------------------------------------------------------------ C11 serde clause
+pub fn c11_serde(inp: &PV) -> PV {
+    use serde_json::{json, Value};
+    let r = inp.at(0).lax();
+    let f = lax_build(r);
+    let text = serde_json::to_string(&f).expect("serialisation succeeds");
+    let back: LOH = serde_json::from_str(&text).expect("deserialisation succeeds");
+    // the documented shape: field names and plain numbers for node identifiers
+    let got: Value = serde_json::from_str(&text).expect("valid JSON");
+    let ids = |ts: &[T]| Value::Array(ts.iter().map(|t| json!(RawLax::id(*t))).collect());
+    let labs = |ts: &[T]| Value::Array(ts.iter().map(|t| serde_json::to_value(K::mk_l(*t)).unwrap()).collect());
+    let want = json!({
+        "sources": ids(&r.s),
+        "targets": ids(&r.t),
+        "hypergraph": {
+            "nodes": labs(&r.nodes),
+            "edges": labs(&r.edges),
+            "adjacency": Value::Array(r.adj.iter().map(|(a, b)| json!({"sources": ids(a), "targets": ids(b)})).collect()),
+            "quotient": json!([ids(&r.quot.iter().map(|p| p.0).collect::<Vec<T>>()), ids(&r.quot.iter().map(|p| p.1).collect::<Vec<T>>())]),
+        }
+    });
+    // the hypergraph alone round-trips too
+    let h2: lax::Hypergraph<L, L> = serde_json::from_str(&serde_json::to_string(&f.hypergraph).unwrap()).expect("hypergraph round trip");
+    PV::List(vec![pv_lax(&back), pv_bool(got == want), pv_lax(&LOH { sources: vec![], targets: vec![], hypergraph: h2 })])
+}
+
+
+// ------------------------------------------------------------------ C03 lax half: the laws for lax diagrams, through strictification
+pub fn c03_lax(inp: &PV) -> PV {
+    let (f, g, h) = (lax_build(inp.at(0).lax()), lax_build(inp.at(1).lax()), lax_build(inp.at(2).lax()));
+    let comp = |a: &LOH, b: &LOH| <LOH as Arrow>::compose(a, b);
+    let st = |x: Option<LOH>| match x {
+        None => PV::None,
+        Some(v) => PV::Some(Box::new(pv_voh(&v.to_strict()))),
+    };
+    let src = |x: &LOH| <LOH as Arrow>::source(x);
+    let tgt = |x: &LOH| <LOH as Arrow>::target(x);
+    // associativity (the right-nested side composes with an un-quotiented composite)
+    let l = comp(&f, &g).and_then(|fg| comp(&fg, &h));
+    let r = comp(&g, &h).and_then(|gh| comp(&f, &gh));
+    // identity laws
+    let il = comp(&LOH::identity(src(&f)), &f);
+    let ir = comp(&f, &LOH::identity(tgt(&f)));
+    // interchange with identities: (f ⊗ g') ; (g ⊗ h') where the second factors are f's neighbours
+    let i1 = comp(&f.tensor(&g), &LOH::identity(tgt(&f)).tensor(&LOH::identity(tgt(&g))));
+    let i2 = match (comp(&f, &LOH::identity(tgt(&f))), comp(&g, &LOH::identity(tgt(&g)))) {
+        (Some(a), Some(b)) => Some(a.tensor(&b)),
+        _ => None,
+    };
+    // naturality of the symmetry
+    let n1 = comp(&f.tensor(&g), &<LOH as SymmetricMonoidal>::twist(tgt(&f), tgt(&g)));
+    let n2 = comp(&<LOH as SymmetricMonoidal>::twist(src(&f), src(&g)), &g.tensor(&f));
+    PV::List(vec![st(l), st(r), st(il), st(ir), pv_voh(&f.clone().to_strict()), st(i1), st(i2), st(n1), st(n2)])
 }
